@@ -932,7 +932,17 @@ func (fr *frame) lookupLocal(name string, at *ssa.BasicBlock, st *State) (TV, bo
 // lookupLocalBefore: like lookupLocal, but inside block at only DebugRefs before
 // instruction limit count.
 func (fr *frame) lookupLocalBefore(name string, at *ssa.BasicBlock, limit ssa.Instruction, st *State) (TV, bool) {
-	var best *ssa.DebugRef
+	// candidate definitions: DebugRefs of the identifier and phis named after the
+	// variable (a loop-carried variable's current value is the phi, even if the
+	// last textual reference precedes the loop); the latest one in dominance order wins
+	var bestVal ssa.Value
+	var bestAddr bool
+	var bestBlock *ssa.BasicBlock
+	take := func(b *ssa.BasicBlock, v ssa.Value, isAddr bool) {
+		if bestBlock == nil || bestBlock == b || bestBlock.Dominates(b) {
+			bestVal, bestAddr, bestBlock = v, isAddr, b
+		}
+	}
 	for _, b := range fr.fn.Blocks {
 		if !(b == at || b.Dominates(at)) {
 			continue
@@ -940,6 +950,14 @@ func (fr *frame) lookupLocalBefore(name string, at *ssa.BasicBlock, limit ssa.In
 		for _, in := range b.Instrs {
 			if b == at && limit != nil && in == limit {
 				break
+			}
+			if p, ok := in.(*ssa.Phi); ok {
+				if p.Comment == name {
+					if _, computed := fr.vals[p]; computed {
+						take(b, p, false)
+					}
+				}
+				continue
 			}
 			d, ok := in.(*ssa.DebugRef)
 			if !ok {
@@ -956,19 +974,17 @@ func (fr *frame) lookupLocalBefore(name string, at *ssa.BasicBlock, limit ssa.In
 					}
 				}
 			}
-			if best == nil || best.Block() == b || best.Block().Dominates(b) {
-				best = d
-			}
+			take(b, d.X, d.IsAddr)
 		}
 	}
-	if best == nil {
+	if bestVal == nil {
 		return fr.lookupRenamed(name, at, limit, st)
 	}
-	if best.IsAddr {
-		l := fr.locOf(best.X, st)
+	if bestAddr {
+		l := fr.locOf(bestVal, st)
 		return fr.load(st, l), true
 	}
-	return fr.val(best.X, st), true
+	return fr.val(bestVal, st), true
 }
 
 // lookupRenamed: a declared local (`local name type`) that no longer exists under
